@@ -405,6 +405,42 @@ fn data(r: &[Word; 8]) -> [u16; 8] { [r[0].get(), r[1].get(), r[2].get(), r[3].g
 fn st_of(sc: &Scalars) -> isa::St { isa::St { r: data(&sc.r), pc: sc.pc, psr: sc.psr, ssp: sc.ssp.get(), depth: sc.depth } }
 fn taken(pend: Option<(u8, u8)>, psr: u16) -> bool { match pend { Some((_, p)) => (if p > 7 { 7 } else { p }) as u16 > isa::prio(psr), None => false } }
 
+/// Native replay of a counterexample (`cargo kani playback` with --cfg verif_native; never compiled into a CBMC run):
+/// contract stubs are not applied there, so the real accessors run on a real machine.  The pre-state memory
+/// function chosen by the reference is installed into the real memory array, the default register map is
+/// mapped, and a pending request is presented by a real interrupt source.
+#[cfg(verif_native)]
+fn native_install(sim: &mut Simulator, pend: Option<(u8, u8)>) {
+    sim.ireg_mmap = InternalRegister::default_mmap();
+    let t = tab();
+    let mut i = 0;
+    while i < NR {
+        if t.r[i].valid {
+            let a = t.r[i].addr;
+            sim.mem[a] = t.r[i].pre;
+            if a == MCR_ADDR { sim.mcr.store(t.r[i].pre.get() & 0x8000 != 0, std::sync::atomic::Ordering::Relaxed); }
+        }
+        i += 1;
+    }
+    if let Some((v, p)) = pend {
+        let _ = sim.device_handler.add_device(device::InterruptFromFn::new(move || Some(device::Interrupt::vectored(v, p))), &[]);
+    }
+}
+/// Native replay: the real step's memory writes, read back from the real array, are those the ISA prescribes.
+#[cfg(verif_native)]
+fn native_check_writes(sim: &Simulator) {
+    let t = tab();
+    let mut j = 0;
+    while j < NW {
+        let e = t.w[j];
+        if e.valid && e.addr < 0xFE00 {
+            let got = sim.mem[e.addr];
+            assert!(got == e.val || (e.alt && got == Word::new_init(e.val.get().wrapping_add(1))), "C08.access (native replay): memory holds the word the ISA prescribes at every written address");
+        }
+        j += 1;
+    }
+}
+
 /// The opcode classes the step obligations are split into (one harness each, run in parallel).
 #[derive(Clone, Copy, PartialEq, Eq)]
 enum Class { Alu, Load, Store, Control, Trap, Rti, Irq, Bad }
@@ -440,18 +476,29 @@ fn step_vs_isa(class: Class, real_traps: bool) {
         kani::assume(c == class);
     }
     if rf.unconstrained { return; }
+    #[cfg(verif_native)]
+    native_install(&mut sim, pend);
     // a cell of the real 64K array must never be touched behind the access functions' back
     let probe: u16 = kani::any();
     let cell0 = sim.mem[probe];
 
-    // ---- the real step
-    let res = sim.step_in();
-    let got = match &res { Ok(()) => Got::Ok, Err(e) => Got::Err(err_code(e)) };
+    // ---- the real step (`step`; `step_in` = clear the observer + `step` + "a halt is not an error": obligation step_in_contract)
+    unsafe { CLEARS = 0; }
+    let res = sim.step();
+    let (got, halted) = match &res { Ok(()) => (Got::Ok, false), Err(StepBreak::Halt) => (Got::Ok, true), Err(StepBreak::Err(e)) => (Got::Err(err_code(e)), false) };
+    #[cfg(not(verif_native))]
+    assert!(unsafe { CLEARS } == 0, "C28.clear: a step never clears the access observer (only the entry points step_in / run_while do, once)");
+    assert!(halted == matches!(rf.out, isa::Outcome::Halt), "C08.halt: a halt is signalled exactly for a virtual HALT");
     let post = scalars(&sim);
     // C16: the faulting-address query never panics
     let fpc = sim.prefetch_pc();
-    assert!(sim.mem[probe] == cell0, "L2.frame: memory is touched only through read_mem/write_mem");
-    assert!(unsafe { POLLS } == 1, "C10.poll: devices are polled exactly once per step");
+    #[cfg(not(verif_native))]
+    {
+        assert!(sim.mem[probe] == cell0, "L2.frame: memory is touched only through read_mem/write_mem");
+        assert!(unsafe { POLLS } == 1, "C10.poll: devices are polled exactly once per step");
+    }
+    #[cfg(verif_native)]
+    { let _ = (probe, cell0); }
 
     // vacuity guards: the outcomes this class is about must be reachable behind the assumptions above
     let (exp_completed, exp_entered, exp_err) = (class != Class::Irq && class != Class::Bad, class == Class::Trap || class == Class::Irq || real_traps, !real_traps && class != Class::Irq);
@@ -472,6 +519,7 @@ fn step_vs_isa(class: Class, real_traps: bool) {
     assert!(post.depth == rf.st.depth, "C27.depth: frame depth = calls/traps/interrupts entered minus returns, saturating");
     // ---- the frame entered (C27: caller = the calling / interrupted instruction, callee = subroutine start or vector, kind)
     let (pushed, pushed_n) = unsafe { (frame::verif_kani::PUSHED, frame::verif_kani::PUSHED_N) };
+    #[cfg(not(verif_native))]
     match rf.frame {
         None => assert!(pushed_n == 0, "C27.frame: a frame is entered only by JSR/JSRR, TRAP, interrupts and exception entries"),
         Some((caller, callee, kind)) => {
@@ -494,7 +542,11 @@ fn step_vs_isa(class: Class, real_traps: bool) {
     // ---- instruction counter
     // (whether a halted, failed or interrupt-entry step counts is the simulator's own choice: not constrained)
     if rf.completed { assert!(post.icount == pre.icount.wrapping_add(1), "C13.count: a completed instruction counts once"); }
+    #[cfg(verif_native)]
+    { let _ = (pushed, pushed_n); native_check_writes(&sim); }
     // ---- memory and I/O accesses: exactly the prescribed set (address, direction, privilege, data)
+    #[cfg(not(verif_native))]
+    {
     let t = tab();
     assert!(!t.extra_read, "C08.access: every read made is one the ISA prescribes (C09: none outside user space in user mode)");
     assert!(!t.extra_write, "C08.access: every write made is one the ISA prescribes (address and data)");
@@ -502,7 +554,12 @@ fn step_vs_isa(class: Class, real_traps: bool) {
     assert!(!t.untracked, "C28.ctx: program accesses are tracked and effectful");
     assert!(t.all_seen(), "C08.access: every access the ISA prescribes is made");
     assert!(t.n_reads <= 4 && t.n_writes <= 2, "L2.frame: at most four reads and two writes per step");
+    }
 }
+
+/// counting stub of `AccessObserver::clear` (its own contract -- forgets everything -- is K.observer.map)
+pub(crate) static mut CLEARS: u32 = 0;
+pub(crate) fn count_clear(_o: &mut observer::AccessObserver) { unsafe { CLEARS += 1; } }
 
 macro_rules! step_harness {
     ($name:ident, $class:expr, $real:expr) => {
@@ -512,6 +569,7 @@ macro_rules! step_harness {
         #[kani::stub(Simulator::read_mem, contract_read_mem)]
         #[kani::stub(Simulator::write_mem, contract_write_mem)]
         #[kani::stub(frame::FrameStack::push_frame, frame::verif_kani::contract_push_frame)]
+        #[kani::stub(observer::AccessObserver::clear, count_clear)]
         #[kani::unwind(9)]
         fn $name() { step_vs_isa($class, $real) }
     };
@@ -532,6 +590,36 @@ step_harness!(step_irq_virtual, Class::Irq, false);
 step_harness!(step_irq_real, Class::Irq, true);
 step_harness!(step_bad_virtual, Class::Bad, false);
 step_harness!(step_bad_real, Class::Bad, true);
+
+/// `step_in` against `step`'s contract: clears the observer exactly once, before the step; returns Ok for a
+/// completed step and for a halt, and the step's error otherwise; changes nothing else.
+static mut SI_CLEARS_AT_STEP: u32 = 99;
+static mut SI_OUT: u8 = 0;
+fn si_step(s: &mut Simulator) -> Result<(), StepBreak> {
+    unsafe { SI_CLEARS_AT_STEP = CLEARS; }
+    s.pc = s.pc.wrapping_add(1); // (the step's own effects: arbitrary; one visible change marks that it ran)
+    match unsafe { SI_OUT } { 0 => Ok(()), 1 => Err(StepBreak::Halt), _ => Err(StepBreak::Err(SimErr::AccessViolation)) }
+}
+#[kani::proof]
+#[kani::stub(std::hash::RandomState::new, stub_random_state)]
+#[kani::stub(Simulator::step, si_step)]
+#[kani::stub(observer::AccessObserver::clear, count_clear)]
+#[kani::unwind(9)]
+fn step_in_contract() {
+    let mut sim = any_sim(flags(kani::any(), kani::any(), kani::any()));
+    let s0 = scalars(&sim);
+    let out: u8 = kani::any();
+    kani::assume(out < 3);
+    unsafe { SI_OUT = out; CLEARS = 0; SI_CLEARS_AT_STEP = 99; }
+    let r = sim.step_in();
+    unsafe {
+        assert!(SI_CLEARS_AT_STEP == 1 && CLEARS == 1, "C28.clear: step_in clears the access observer exactly once, before the step");
+    }
+    match out { 0 | 1 => assert!(r.is_ok(), "C13.step_in: a completed step and a halt are successes"),
+                _ => assert!(matches!(r, Err(SimErr::AccessViolation)), "C13.step_in: the step's error is returned") }
+    let s1 = scalars(&sim);
+    assert!(s1.pc == s0.pc.wrapping_add(1) && s1.psr == s0.psr && s1.depth == s0.depth && s1.icount == s0.icount, "C13.step_in: exactly one step, nothing else");
+}
 
 // =================================================================================================
 // L0 leaf contracts
@@ -964,12 +1052,16 @@ static mut NEW_FLAGS: Option<SimFlags> = None;
 static mut NEW_MCR: *const AtomicBool = std::ptr::null();
 static mut IO_RESETS: u32 = 0;
 const MARK_PC: u16 = 0x1234;
+static mut NEW_SCALARS: Option<Scalars> = None;
+static mut NEW_PROBE: (u16, Option<Word>) = (0, None);
 fn stub_new_with_mcr(fl: SimFlags, mcr: MCR) -> Simulator {
     unsafe { NEW_CALLS += 1; NEW_FLAGS = Some(fl); NEW_MCR = Arc::as_ptr(&mcr); }
     let mut s = any_sim_with(fl, DeviceHandler::new());
     s.mcr = mcr;
     s.pc = MARK_PC; // marks "the machine the constructor returned"
     s.instructions_run = 0;
+    // remember the fresh machine's architectural state: reset must hand back exactly this
+    unsafe { NEW_SCALARS = Some(scalars(&s)); NEW_PROBE.1 = Some(s.mem[NEW_PROBE.0]); }
     s
 }
 fn stub_io_reset(_d: &mut DeviceHandler) { unsafe { IO_RESETS += 1; } }
@@ -984,6 +1076,8 @@ fn reset_contract() {
     let mut sim = any_sim_with(fl, DeviceHandler::new());
     let mcr0 = Arc::as_ptr(&sim.mcr);
     let dev0 = sim.device_handler.verif_ports_ptr();
+    unsafe { NEW_PROBE = (kani::any(), None); NEW_SCALARS = None; }
+    sim.pause_condition = match kani::any::<u8>() % 3 { 0 => PauseCondition::Halt, 1 => PauseCondition::Breakpoint, _ => PauseCondition::MCROff };
     sim.reset();
     unsafe {
         assert!(NEW_CALLS == 1, "C30.reset: state is exactly that of one freshly constructed machine");
@@ -992,6 +1086,11 @@ fn reset_contract() {
         assert!(IO_RESETS == 1, "C30.reset: attached devices are reset exactly once");
     }
     assert!(sim.pc == MARK_PC && sim.instructions_run == 0, "C30.reset: the simulation state is the constructor's");
+    unsafe {
+        assert!(NEW_SCALARS == Some(scalars(&sim)), "C30.reset: registers, PC, PSR, saved SP, frame depth and instruction count are those of a new simulator");
+        assert!(NEW_PROBE.1 == Some(sim.mem[NEW_PROBE.0]), "C30.reset: memory is that of a new simulator");
+    }
+    assert!(!sim.hit_halt() && !sim.hit_breakpoint(), "C30.reset: halt/breakpoint status cleared");
     assert!(sim.flags == fl && Arc::as_ptr(&sim.mcr) == mcr0, "C30.reset: flags and MCR handle kept");
     assert!(sim.device_handler.verif_ports_ptr() == dev0, "C30.reset: the attached devices (handler) are moved across, not rebuilt");
     std::mem::forget(sim);
@@ -1036,6 +1135,9 @@ static mut STEP_CLEAR_MCR: [bool; 6] = [false; 6];
 static mut STEP_BOUND: usize = 0;
 /// frame depth and instruction counter seen at the entry of each step (what the loop's stop condition looked at)
 static mut STEP_PRE: [(u64, u64); 6] = [(0, 0); 6];
+/// PC left by each step, and how often the observer had been cleared when the first step was entered
+static mut STEP_POST_PC: [u16; 6] = [0; 6];
+static mut STEP_CLEARS_AT_FIRST: u32 = 99;
 /// Contract stub of `Simulator::step`: an arbitrary outcome; on success the instruction counter may
 /// advance by one (not on an interrupt entry), the frame depth moves by at most one, PC/registers arbitrary;
 /// a program may clear the MCR.  Also checks that nothing touched the machine since the previous step.
@@ -1044,6 +1146,7 @@ fn contract_step(s: &mut Simulator) -> Result<(), StepBreak> {
         if let Some(prev) = STEP_LAST { if !same_scalars(&prev, &scalars(s)) { STEP_TAMPER = true; } }
         let k = STEP_N; STEP_N += 1;
         if k < 6 { STEP_PRE[k] = (s.frame_stack.len(), s.instructions_run); }
+        if k == 0 { STEP_CLEARS_AT_FIRST = CLEARS; }
         // bounded stand-in: runs longer than the bound are not explored
         kani::assume(k < STEP_BOUND);
         let out = if kani::any() { StepOut::Ok } else if kani::any() { StepOut::Halt } else { StepOut::Err };
@@ -1063,6 +1166,7 @@ fn contract_step(s: &mut Simulator) -> Result<(), StepBreak> {
             StepOut::Err => Err(StepBreak::Err(SimErr::IllegalOpcode)),
         };
         STEP_LAST = Some(scalars(s));
+        if k < 6 { STEP_POST_PC[k] = s.pc; }
         r
     }
 }
@@ -1077,7 +1181,7 @@ fn run_loop_contract(which: Runner, bound: u64, with_bp: bool) {
     let s0 = scalars(&sim);
     let limit: u64 = kani::any();
     kani::assume(limit <= bound);
-    unsafe { STEP_N = 0; STEP_LAST = None; STEP_TAMPER = false; STEP_BOUND = bound as usize; }
+    unsafe { STEP_N = 0; STEP_LAST = None; STEP_TAMPER = false; STEP_BOUND = bound as usize; CLEARS = 0; STEP_CLEARS_AT_FIRST = 99; }
     let r = match which {
         Runner::Limit => sim.run_with_limit(limit),
         Runner::Over => sim.step_over(),
@@ -1091,11 +1195,17 @@ fn run_loop_contract(which: Runner, bound: u64, with_bp: bool) {
     assert!(!unsafe { STEP_TAMPER }, "C13.steps: between two steps the loop changes nothing of the machine");
     assert!(!sim.mcr.load(std::sync::atomic::Ordering::Relaxed), "C13.mcr: the MCR is off when the run returns");
     // every step but the last succeeded, did not clear the MCR and did not land on the breakpoint
+    let post_pc = unsafe { STEP_POST_PC };
     let mut i = 0;
     while (i as u64) < bound {
-        if i + 1 < n { assert!(outs[i] == StepOut::Ok && !cleared[i], "C13.stop: no instruction runs after a halt, an error or the MCR being cleared"); }
+        if i + 1 < n {
+            assert!(outs[i] == StepOut::Ok && !cleared[i], "C13.stop: no instruction runs after a halt, an error or the MCR being cleared");
+            if with_bp { assert!(post_pc[i] != bp_pc, "C13.bp: no instruction runs after a breakpoint matched at an instruction boundary"); }
+        }
         i += 1;
     }
+    // C28: a run forgets the previous run's accesses once, before its first instruction, and never in between
+    if n > 0 { assert!(unsafe { STEP_CLEARS_AT_FIRST } == 1 && unsafe { CLEARS } == 1, "C28.clear: a run clears the access observer exactly once, before its first instruction"); }
     // no instruction runs once the documented stop condition holds at an instruction boundary
     let pre = unsafe { STEP_PRE };
     let mut i = 0;
@@ -1140,6 +1250,7 @@ fn run_loop_contract(which: Runner, bound: u64, with_bp: bool) {
         }
     }
     // the limit is never exceeded; step_over/out never continue once their depth condition holds
+    if which == Runner::Out && s0.depth == 0 { assert!(n == 0, "C13.out: step_out at top level executes nothing"); }
     if which == Runner::Limit { assert!(n as u64 <= limit || limit == 0 && n == 0 || end.icount.wrapping_sub(s0.icount) <= limit, "C13.limit: never more than the limit"); }
     kani::cover!(n >= 2, "two-step run reachable");
 }
@@ -1148,9 +1259,36 @@ macro_rules! loop_harness {
         #[kani::proof]
         #[kani::stub(std::hash::RandomState::new, stub_random_state)]
         #[kani::stub(Simulator::step, contract_step)]
+        #[kani::stub(observer::AccessObserver::clear, count_clear)]
         #[kani::unwind($unwind)]
         fn $name() { run_loop_contract($which, $bound, $bp) }
     };
+}
+/// `run_while` with a caller-supplied tripwire that adds a breakpoint during the run (the tripwire receives
+/// `&mut Simulator`): the breakpoint stops the run at the first boundary where it matches after an executed instruction.
+#[kani::proof]
+#[kani::stub(std::hash::RandomState::new, stub_random_state)]
+#[kani::stub(Simulator::step, contract_step)]
+#[kani::stub(observer::AccessObserver::clear, count_clear)]
+#[kani::unwind(9)]
+fn run_while_tripwire_adds_breakpoint() {
+    let mut sim = any_sim(flags(kani::any(), kani::any(), kani::any()));
+    let bp_pc: u16 = 0x3005;
+    unsafe { STEP_N = 0; STEP_LAST = None; STEP_TAMPER = false; STEP_BOUND = 3; CLEARS = 0; }
+    let mut added = false;
+    let r = sim.run_while(|s| { if !added { s.breakpoints.insert(Breakpoint::PC(bp_pc)); added = true; } true });
+    let n = unsafe { STEP_N };
+    let (outs, cleared, post_pc) = unsafe { (STEP_OUTS, STEP_CLEAR_MCR, STEP_POST_PC) };
+    kani::cover!(n >= 2, "two-step run reachable");
+    let mut i = 0;
+    while i < 3 {
+        if i + 1 < n { assert!(outs[i] == StepOut::Ok && !cleared[i] && post_pc[i] != bp_pc, "C13.bp: a breakpoint added during the run stops it at the first boundary where it matches"); }
+        i += 1;
+    }
+    if n > 0 && outs[n - 1] == StepOut::Ok {
+        assert!(r.is_ok() && sim.hit_breakpoint() == (post_pc[n - 1] == bp_pc), "C13.bp: breakpoint reported exactly when it matches after an executed instruction");
+    }
+    std::mem::forget(sim);
 }
 loop_harness!(run_with_limit_3, Runner::Limit, 3, false, 9);
 loop_harness!(step_over_3, Runner::Over, 3, false, 9);
@@ -1197,6 +1335,22 @@ macro_rules! mmap_harness {
         #[kani::unwind(17)]
         fn $name() { mmap_contract($map, $addr, $probe) }
     };
+}
+/// C32: a second `mmap_internal` on an address that already reaches a register is rejected and the address keeps
+/// reaching the first register (both register kinds symbolic; concrete address xFE10, map initially empty).
+#[kani::proof]
+#[kani::stub(std::hash::RandomState::new, stub_random_state)]
+#[kani::unwind(17)]
+fn mmap_internal_twice() {
+    let mut sim = l1_sim(Map::Empty);
+    let (k1, k2): (u8, u8) = (kani::any(), kani::any());
+    kani::assume(k1 < 4 && k2 < 4);
+    let kind = |k: u8| match k { 0 => InternalRegister::PC, 1 => InternalRegister::PSR, 2 => InternalRegister::MCR, _ => InternalRegister::SavedSP };
+    assert!(sim.mmap_internal(0xFE10, kind(k1)).is_ok(), "C32.mmap: a free I/O address can be mapped");
+    let r = sim.mmap_internal(0xFE10, kind(k2));
+    assert!(matches!(r, Err(MMapInternalErr::AddrAlreadyMapped)), "C32.mmap: an occupied address is rejected");
+    assert!(sim.ireg_mmap.get(&0xFE10).copied() == Some(kind(k1)), "C32.mmap: ... and keeps reaching the register mapped first");
+    std::mem::forget(sim);
 }
 mmap_harness!(mmap_internal_empty_free, Map::Empty, 0xFE10, 0xFE10);
 mmap_harness!(mmap_internal_empty_other, Map::Empty, 0xFE10, 0xFE20);
